@@ -12,7 +12,7 @@ LEVEL = 'exploration'
 RULE = ('full product of K{2,3} x D{K+1,K+2,8} x (F,T){(33,60),(65,100),(257,60)|(257,200)} x {cACGMM,cWMM} x 3 '
         'activity partitions x 3 permutation-field families; 13 beamformer names per scene')
 ASSUMPTIONS = ['thresholds of the statement: >= 99 % MAP accuracy, SIR >= 30 dB for every source and beamformer',
-               'scene: sources disjoint over frames, generic per-frequency steering vectors, sensor noise -40 dB']
+               'scene: sources disjoint over frames, generic per-frequency steering vectors, sensor noise -40 dB (-80 and -120 dB for a subset)']
 
 BEAMFORMERS = ('mvdr_souden', 'mvdr_souden+ban', 'gev', 'gev+ban', 'rank1_pca+mvdr_souden',
                'rank1_gev+mvdr_souden', 'rank1_pca+gev', 'rank1_gev+gev+ban', 'wmwf', 'rank1_pca+wmwf',
@@ -98,7 +98,7 @@ def run_scene(key):
     for k in range(K):
         sel = owner == k
         images[k][:, sel, :] = steer[:, k, None, :] * s[:, sel, None]
-    noise = A.cnormal(r, (F, T, D)) * 10 ** (-40 / 20)
+    noise = A.cnormal(r, (F, T, D)) * 10 ** (key.get('noise_db', -40) / 20)
     X = images.sum(0) + noise                                   # (F, T, D)
     # per-frequency permuted, blurred partition as start
     part = np.full((K, T), 0.4 / (K - 1))
@@ -177,6 +177,10 @@ def subchecks(tier, seed):
                                 if not thorough and F == 257 and (pk == 'blocks' or family == 'identity'
                                                                  or (D == K + 2 and model == 'cwmm')):
                                     continue
-                                yield (K, D, F, T, model, pk, family, seed)
-    return [Sub('scenes', ('K', 'D', 'F', 'T', 'model', 'part', 'field', 'seed'), cases, run_scene,
+                                yield (K, D, F, T, model, pk, family, -40, seed)
+                                if F == 33 and family == 'random' and (thorough or pk == 'random'):
+                                    # much quieter sensor noise ("at least 40 dB below the sources")
+                                    for db in (-80, -120):
+                                        yield (K, D, F, T, model, pk, family, db, seed)
+    return [Sub('scenes', ('K', 'D', 'F', 'T', 'model', 'part', 'field', 'noise_db', 'seed'), cases, run_scene,
                 bound=dict(beamformers=list(BEAMFORMERS)), exhaustive=thorough, min_nontrivial=50)]
